@@ -1,9 +1,23 @@
 #!/bin/sh
-# Runs the repository's pinned suite with the verification guard OFF (plain upstream build).
+# Runs the repository's pinned suite with the verification guard OFF (plain upstream build, no -DGMSSL_VERIF).
 # usage: tools/baseline.sh [builddir]   (default /repo/_build)
+# exit 0 iff every test listed as stable_pass in /root/.vp/BASELINE.json passed.
 B="${1:-/repo/_build}"
-set -e
-cmake -G Ninja -S /repo -B "$B" >/dev/null
-cmake --build "$B" -j16 >/dev/null
-cd "$B"
-ctest --test-dir "$B" -j8 --timeout 900 2>&1 | tail -15
+cmake -G Ninja -S /repo -B "$B" >/dev/null || exit 2
+cmake --build "$B" -j16 >/dev/null || exit 2
+OUT=$(ctest --test-dir "$B" -j8 --timeout 900 2>&1)
+echo "$OUT" | tail -14
+python3 - "$OUT" <<'PY'
+import sys, json, re
+out = sys.argv[1]
+passed = set(re.findall(r"Test\s+#\d+:\s+(\S+)\s+\.+\s+Passed", out))
+try:
+    want = {t.split("::")[0] for t in json.load(open("/root/.vp/BASELINE.json"))["stable_pass"]}
+except Exception:
+    want = None
+if want is None:
+    sys.exit(0 if passed else 1)
+missing = sorted(want - passed)
+print("baseline: %d/%d stable tests passed%s" % (len(want & passed), len(want), (" MISSING: " + ",".join(missing)) if missing else ""))
+sys.exit(1 if missing else 0)
+PY
